@@ -49,6 +49,7 @@ FLAGS = st.fixed_dictionaries({
     "max_fails": st.one_of(st.none(), st.integers(-1, 5)),
     "workers": st.one_of(st.none(), st.integers(1, 4)),
     "via_api": st.sampled_from([False, False, True]),     # taskiq.api.run_receiver_task instead of the command line
+    "reverse_order": st.booleans(),                        # the value options given in the opposite order on the command line
 })
 
 
@@ -56,7 +57,8 @@ def argv_of(flags: Dict[str, Any]) -> List[str]:
     a = ["vt.harness.cliwire:broker_factory", "--receiver", "vt.harness.cliwire:RecordingReceiver"]
     if flags.get("ack_type"):
         a += ["--ack-type", flags["ack_type"]]
-    for name in ("max_async_tasks", "max_prefetch", "max_tasks_per_child", "wait_tasks_timeout", "max_fails", "workers", "max_threadpool_threads"):
+    names = ("max_async_tasks", "max_prefetch", "max_tasks_per_child", "wait_tasks_timeout", "max_fails", "workers", "max_threadpool_threads")
+    for name in (reversed(names) if flags.get("reverse_order") else names):
         if flags.get(name) is not None:
             a += ["--" + name.replace("_", "-"), str(flags[name])]
     if flags.get("no_parse"):
